@@ -21,6 +21,21 @@ class Norm:
         self.fn = fn
         self.ren = {}
         self.hook = hook
+        # name parameters and locals by declaration order (not by first use), so that the operand order of a
+        # comparison cannot influence the numbering
+        for p in fn.params:
+            self.ren.setdefault(p["id"], "v%d" % len(self.ren))
+        decls = []
+        for b in fn.blocks.values():
+            for el in b.elems:
+                e = el.get("e") if isinstance(el, dict) and "e" in el and "k" not in el else el
+                if isinstance(e, dict) and e.get("k") == "decl":
+                    decls.append(((e.get("loc") or {}).get("l", 0), e.get("id", 0), e["id"]))
+                elif isinstance(e, dict) and e.get("k") == "decls":
+                    for x in e.get("ds", []):
+                        decls.append(((x.get("loc") or {}).get("l", 0), x.get("id", 0), x["id"]))
+        for _, _, i in sorted(decls):
+            self.ren.setdefault(i, "v%d" % len(self.ren))
 
     def name(self, e):
         key = e.get("id")
@@ -55,6 +70,11 @@ class Norm:
             return "%s[%s]" % (self.r(e["b"], n), self.r(e["i"], n))
         if k == "call":
             return "%s(%s)" % (e.get("fn") or "(*%s)" % self.r(e.get("fe"), n), ",".join(self.r(a, n) for a in e.get("a", [])))
+        if k == "bin" and e["op"] in (">", ">="):
+            return "(%s %s %s)" % (self.r(e["r"], n), {">": "<", ">=": "<="}[e["op"]], self.r(e["l"], n))
+        if k == "bin" and e["op"] in ("==", "!="):
+            a, b = sorted([self.r(e["l"], n), self.r(e["r"], n)])
+            return "(%s %s %s)" % (a, e["op"], b)
         if k in ("bin", "assign"):
             return "(%s %s %s)" % (self.r(e["l"], n), e["op"], self.r(e["r"], n))
         if k == "un":
